@@ -61,10 +61,17 @@ fn call_pair(f: &FnSpec, path_prefix: &str, idx: usize, ufcs: Option<&str>) -> S
         Deps::NoDeps => (format!("{path_prefix}{}({args})", f.name), format!("app.{}({args})", f.name)),
         Deps::Concrete => (format!("{path_prefix}{}(&conf{comma}{args})", f.name), format!("conf.{}({args})", f.name)),
     };
-    if let Some(trait_path) = ufcs {
-        // the trait of a module with a generic fn is generic itself: name the instantiation
-        let recv = if f.deps.by_value() { "mk_app(7)" } else { "&app" };
-        via = format!("<::entrait::Impl<App> as {trait_path}>::{}({recv}{comma}{args})", f.name);
+    // Fully qualified calls: method-call syntax on `Impl<T>` could fall through `Deref` to an impl for `T` itself and hide a
+    // missing impl for `Impl<T>`. (The trait of a module with a generic fn is generic itself: `ufcs` names the instantiation.)
+    {
+        let trait_path = ufcs.unwrap_or(if f.has_gen { "TheTrait<_>" } else { "TheTrait" });
+        via = match f.deps {
+            Deps::Concrete => format!("<Conf as {trait_path}>::{}(&conf{comma}{args})", f.name),
+            _ => {
+                let recv = if f.deps.by_value() { "mk_app(7)" } else { "&app" };
+                format!("<::entrait::Impl<App> as {trait_path}>::{}({recv}{comma}{args})", f.name)
+            }
+        };
     }
     let mut s = String::new();
     s.push_str("    {\n");
@@ -87,7 +94,7 @@ fn call_pair(f: &FnSpec, path_prefix: &str, idx: usize, ufcs: Option<&str>) -> S
         let d2 = wrap(format!("{path_prefix}{}(&*iconf{comma}{args})", f.name));
         s.push_str(&format!("let direct2 = {d2};\n        let t_direct2 = rt::take();\n"));
         s.push_str(&format!("        {}", f.vec_decls().replace('\n', "\n        ")));
-        let v2 = wrap(format!("iconf.{}({args})", f.name));
+        let v2 = wrap(format!("<::entrait::Impl<Conf> as {}>::{}(&iconf{comma}{args})", if f.has_gen { "TheTrait<_>" } else { "TheTrait" }, f.name));
         s.push_str(&format!("let via2 = {v2};\n        let t_via2 = rt::take();\n"));
         s.push_str(&format!("        rt::expect_eq(&mut fails, \"fn#{idx} {}: result through Impl<Conf>\", &via2, &direct2);\n", f.name));
         s.push_str(&format!("        rt::expect_eq(&mut fails, \"fn#{idx} {}: trace through Impl<Conf>\", &t_via2, &t_direct2);\n", f.name));
@@ -273,7 +280,7 @@ pub fn run(ctx: &mut Ctx) {
                 same-typed params, module with >=2 same-signature fns, async, by-value deps or a non-plain pattern; distinct = distinct program text"
         .into();
     ctx.assumptions.push("programs that do not compile are C03's business: dropped here and counted; the run is inconclusive if more than 5% drop".into());
-    let n = ctx.n(300, 6000) as usize;
+    let n = ctx.n(1000, 10_000) as usize;
     let mut total_dropped = 0usize;
     let mut total = 0usize;
     for feature_unimock in [false, true] {
